@@ -684,7 +684,14 @@ fn one_run_inner(ctx: &RunCtx) -> RunOut {
                 }
             }
             1 => match get("poll_data") {
-                Some(o) if o == format!("StreamTerminated({code})") => {}
+                Some(o) if o == format!("StreamTerminated({code})") => {
+                    // what a second read of the reset stream is answered with (DESIGN 7.4 O9)
+                    match get("poll_data.again").as_deref() {
+                        Some("end") => obs::count("probe.read_after_reported_reset.answered_end_of_stream"),
+                        Some(a) if a.starts_with("StreamTerminated") => obs::count("probe.read_after_reported_reset.answered_with_the_reset_again"),
+                        _ => obs::count("probe.read_after_reported_reset.other"),
+                    }
+                }
                 other => return fail("C17.wrong_error_class", format!("peer reset the stream with {code}: the read reported {:?}", other), "reset").map_fact("got", other.as_deref().unwrap_or("none").split('(').next().unwrap_or("")),
             },
             2 => {
